@@ -197,11 +197,11 @@ class Gen:
         """base = (point, res) anchor or None."""
         r = self.rng
         x = r.random()
-        if x < 0.03:
+        if x < 0.07:
             return self.coarse_cell()
-        if x < 0.06:
+        if x < 0.10:
             return self.weird_cell()
-        if x < 0.17:
+        if x < 0.20:
             return self.synth_cell()
         if base is not None and x < 0.8:
             p, res = base
